@@ -206,7 +206,13 @@ fn run_hist(ctx: &mut Ctx, from: u64, to: u64, update_state_mode: bool) {
             }
         } else if rng.chance(1, 8) {
             ops.push(Op::Update(Fmt::Raw, to_string(&final_text)));
-            ops.push(Op::WriteBoundaries(rng.next_u64()));
+            if rng.chance(1, 2) {
+                ops.push(Op::WriteBoundaries(rng.next_u64()));
+            } else {
+                // the very same text was just analysed by (usually) another predictor
+                ops.push(Op::Predict(rng.below(preds.len())));
+                ctx.count("histories_where_another_predictor_just_analysed_the_final_text", 1);
+            }
             ctx.count("histories_ending_on_final_text_itself_with_labels", 1);
         }
         let fp = &preds[final_pred];
